@@ -130,11 +130,15 @@ pub fn run_case(case: &Value, out: &mut Out) {
     let (bytes, prog, enc) = case_bytes(case);
     // mode "bytes": the trace carries the (possibly patched) bytes; TLC derives the program from them (AseParse!Decode)
     let bytes_field = if mode == "bytes" { json!(bytes) } else { json!([]) };
-    out.ev(&json!({"ev": "begin", "case": id, "mode": mode, "meta": meta, "len": bytes.len(), "bytes": bytes_field,
+    out.ev(&json!({"ev": "begin", "case": id, "mode": mode, "meta": meta, "len": bytes.len(), "xbytes": bytes_field,
         "eof": enc.as_ref().map_or(bytes.len(), |e| e.end_of_frames),
         "hdr": prog.as_ref().map_or(json!([]), |p| json!([p.hdr])),
         "trailing": prog.as_ref().map_or(0, |p| p.trailing.len())}));
     out.flush();
+    if case.get("selftest_abort").and_then(|t| t.as_bool()).unwrap_or(false) {
+        // bin/selftest: simulate the library aborting the process in the middle of a case
+        std::process::abort();
+    }
     let ld = load_bytes(&bytes);
     if mode == "full" {
         if let Some(p) = &prog {
